@@ -556,6 +556,12 @@ def apply_fault(msg, fault):
     if k == 'stopsig':
         m[-4:] = bytes.fromhex(fault['bytes'])
         return bytes(m)
+    if k == 'total':
+        # the declared total length of section 0 (the one field every other fault leaves alone): only for
+        # 'container' scenarios of metadata-only scanning, value computed from the stream layout
+        if fault.get('value') is not None:
+            m[4:7] = int(fault['value']).to_bytes(3, 'big')
+        return bytes(m)
     w = walk(msg)
     if k == 'undef':
         o = w['sections'][3][0] + 7 + 2 * fault['pos']
